@@ -75,6 +75,10 @@ func (sdp *SizeDataPacker) PackDataInChunks(data [][]byte, limit int) ([][]byte,
 			}
 
 			lastMarshalized = make([]byte, 0)
+			if len(elements) > 0 {
+				// the element that opened the new chunk fits: it is flushed with the next overflow
+				lastMarshalized = marshaledElements
+			}
 			continue
 		}
 
